@@ -4,12 +4,14 @@ import (
 	"context"
 	"time"
 
+	"github.com/drand/drand/v2/common"
+
 	proto "github.com/drand/drand/v2/protobuf/drand"
 )
 
 // Event is one step fed to the node under test.
 type Event struct {
-	Kind string // start | adv | part | stop | restart | syncmode | transition
+	Kind string // start | adv | part | stop | restart | syncmode | transition | hold | release
 	D    int64  // adv: seconds
 
 	// part
@@ -77,6 +79,8 @@ type runner struct {
 	stopped   bool
 	tickRound uint64        // round of the last tick delivered to the run loop
 	syncGoal  func() uint64 // how far a sync can get (nil: the current round)
+	holding   bool          // ticks are held back
+	lastStale int64         // round of the stale tick delivered by the last release (0: none)
 
 	lastPrev, lastSig []byte
 	lastTarget        int64
@@ -174,6 +178,11 @@ func (r *runner) prevBytes(kind string, round uint64) []byte {
 			return nil
 		}
 		return r.w.RefBeacon(round - 1).Signature
+	case "refx": // the genuine previous signature followed by one more byte: another message, another cache entry
+		if round == 0 {
+			return nil
+		}
+		return append(append([]byte{}, r.w.RefBeacon(round-1).Signature...), 0)
 	case "junk":
 		return []byte("junk-previous-signature-junk-previous-signature!")
 	case "empty":
@@ -210,6 +219,20 @@ func (r *runner) Do(ev Event) Obs {
 			}
 		}
 		w.Clock.Advance(time.Duration(ev.D) * time.Second)
+	case "hold": // the process stalls as far as its ticker goes: ticks are generated but not consumed
+		w.CClock.setHold(true)
+		r.holding = true
+	case "release": // the stall ends: the one pending tick is consumed, with its old time stamp
+		r.holding = false
+		if t := w.CClock.release(); !t.IsZero() {
+			r.lastStale = int64(common.CurrentRound(t.Unix(), time.Duration(w.Period)*time.Second, w.Genesis))
+			expEmits = 1
+			if w.Head()+1 < uint64(r.lastStale) {
+				expSync = true
+			}
+		} else {
+			r.lastStale = 0
+		}
 	case "stop":
 		w.H.Stop(ctx)
 		r.stopped = true
